@@ -847,7 +847,7 @@ pub fn c12_alloc_fault(api: u8, min_size: usize, skip: u64, len: usize, seed: u6
         Err(tlsh::GeneratorOrIOError::IOError(e)) => format!("IOError({:?})", e.kind()),
     };
     // everything the harness needs is allocated before arming
-    let path = std::path::Path::new(dir).join(format!("allocfault_{api}_{min_size}_{skip}.bin"));
+    let path = std::path::Path::new(dir).join(format!("allocfault_{api}_{min_size}_{skip}_{len}_{}.bin", std::process::id()));
     if api == 6 {
         std::fs::create_dir_all(dir).expect("scratch dir");
         std::fs::write(&path, &data).expect("write scratch file");
